@@ -12,7 +12,7 @@ use rand::{Rng, SeedableRng};
 use serde_json::{Value, json};
 
 use crate::j;
-use crate::util::{Args, Report, TraceOut, catch, read_lines};
+use crate::util::{Args, Report, TraceOut, catch, logging, read_lines};
 
 pub fn flip_name(f: PageFlipStyle) -> &'static str {
     match f {
@@ -398,9 +398,16 @@ impl Walker {
             State::ConfigInProgress if r < 70 => {
                 if r < 45 {
                     *chunks += 1;
-                    let cfg = self.rand_cfg();
-                    if let Some(d) = documented_dims(&cfg) {
-                        self.cfg_dims = Some(d);
+                    let mut cfg = self.rand_cfg();
+                    // now and then the block is followed by extra bytes, or cut short: only exactly 16 bytes are a configuration
+                    match self.rng.gen_range(0..12) {
+                        0 => cfg.extend((0..self.rng.gen_range(1..=239)).map(|i| i as u8)),
+                        1 => cfg.truncate(self.rng.gen_range(1..16)),
+                        _ => {
+                            if let Some(d) = documented_dims(&cfg) {
+                                self.cfg_dims = Some(d);
+                            }
+                        }
                     }
                     sd(0, &cfg)
                 } else if r < 50 {
@@ -517,6 +524,7 @@ pub fn record_walks(a: &Args, out: &mut TraceOut, seed_salt: u64, walks: usize, 
         let foreign = own ^ (1u16 << (w % 16)); // a near miss: differs from the own address in exactly one bit
         let flip = if w % 2 == 0 { PageFlipStyle::Manual } else { PageFlipStyle::Automatic };
         let mut walker = Walker { rng, own: vec![own], foreign, cfg_dims: None, doctored: true };
+        logging(w % 3 == 1); // one walk in three runs with logging enabled
         let mut s = VirtualSign::new(Address(own), flip);
         out.emit(json!({"e": "reset", "addr": own, "flip": flip_name(flip)}));
         let (mut sent, mut chunks) = (0usize, 0u32);
@@ -551,8 +559,11 @@ pub fn record_directed(out: &mut TraceOut, thorough: bool) -> Value {
         SignType::HorizonDash40x12,
     ];
     let mut n = 0usize;
+    let mut runs = 0usize;
     let mut run = |out: &mut TraceOut, msgs: Vec<Message<'static>>, flip: PageFlipStyle| {
         out.balance();
+        runs += 1;
+        logging(runs % 2 == 0);
         let mut s = VirtualSign::new(Address(7), flip);
         out.emit(json!({"e": "reset", "addr": 7, "flip": flip_name(flip)}));
         for m in msgs {
@@ -673,6 +684,48 @@ pub fn record_directed(out: &mut TraceOut, thorough: bool) -> Value {
     ];
     if thorough {
         customs.push(vec![4, 0x99, 0, 0, 0xFF, 0xFF, 0xFF, 0xFF, 0xFF, 0x10, 0, 0, 0, 0, 0, 0]); // 1020 x 255 (32656 bytes)
+    }
+    // configuration chunks that are too long or too short (17, 32, 255 and 15 bytes starting with a real block)
+    for (ti, t) in crate::ctl::ALL_TYPES.iter().enumerate().take(4) {
+        for extra in [1usize, 16, 239] {
+            let mut long = t.to_bytes().to_vec();
+            long.extend((0..extra).map(|i| (i + ti) as u8));
+            let v = vec![Message::RequestOperation(a, Operation::ReceiveConfig), sd(0, &long), Message::DataChunksSent(ChunkCount(1)), Message::QueryState(a),
+                         Message::RequestOperation(a, Operation::ReceiveConfig), sd(0, &long), Message::DataChunksSent(ChunkCount(0)), Message::QueryState(a),
+                         Message::RequestOperation(a, Operation::ReceivePixels), Message::QueryState(a)];
+            run(out, v, PageFlipStyle::Manual);
+        }
+        let short = t.to_bytes()[..15].to_vec();
+        run(out, vec![Message::RequestOperation(a, Operation::ReceiveConfig), sd(0, &short), Message::DataChunksSent(ChunkCount(1)), Message::QueryState(a)], PageFlipStyle::Automatic);
+    }
+    // several complete pages in one transfer whose page numbers run through 0xFE, 0xFF, 0x00
+    for t in [SignType::Max3000Dash30x7, SignType::HorizonSide96x8] {
+        let (w, h) = t.dimensions();
+        let mut v = vec![Message::RequestOperation(a, Operation::ReceiveConfig), sd(0, t.to_bytes()), Message::DataChunksSent(ChunkCount(1)),
+                         Message::RequestOperation(a, Operation::ReceivePixels)];
+        let mut n = 0u16;
+        for id in [0xFDu8, 0xFE, 0xFF, 0x00, 0x01, 0xFF, 0xFF] {
+            let page = flipdot_core::Page::new(flipdot_core::PageId(id), w, h).as_bytes().to_vec();
+            for (i, c) in page.chunks(16).enumerate() {
+                v.push(sd((i * 16) as u16, c));
+                n += 1;
+            }
+        }
+        v.push(Message::DataChunksSent(ChunkCount(n)));
+        v.push(Message::QueryState(a));
+        v.push(Message::PixelsComplete(a));
+        v.push(Message::QueryState(a));
+        run(out, v, PageFlipStyle::Manual);
+    }
+    // data chunks near the top of the 16-bit offset space (offset + length runs past 0xFFFF)
+    {
+        let mut v = vec![Message::RequestOperation(a, Operation::ReceiveConfig), sd(0, &cfg_tiny()), Message::DataChunksSent(ChunkCount(1)), Message::RequestOperation(a, Operation::ReceivePixels)];
+        for (off, len) in [(0xFFF0u16, 16usize), (0xFFF8, 16), (0xFF02, 255), (0xFFFF, 2), (0xFFFF, 1), (0xFFFF, 255), (0x8000, 255), (0xFF00, 255)] {
+            v.push(sd(off, &vec![0x5A; len]));
+        }
+        v.push(Message::DataChunksSent(ChunkCount(8)));
+        v.push(Message::QueryState(a));
+        run(out, v, PageFlipStyle::Manual);
     }
     // a doctored block followed by the genuine block of the same type (same transfer, and on a retry): the last one counts
     for (ti, t) in crate::ctl::ALL_TYPES.iter().enumerate() {
@@ -831,6 +884,7 @@ pub fn record_bus_walks(a: &Args, out: &mut TraceOut, salt: u64, walks: usize, s
         let flips: Vec<PageFlipStyle> = (0..n).map(|i| if (i + w) % 2 == 0 { PageFlipStyle::Manual } else { PageFlipStyle::Automatic }).collect();
         let signs: Vec<VirtualSign<'static>> = (0..n).map(|i| VirtualSign::new(Address(addrs[i]), flips[i])).collect();
         let mut bus = VirtualSignBus::new(signs);
+        logging(w % 3 == 2);
         out.emit(json!({"e": "busreset", "signs": (0..n).map(|i| json!({"addr": addrs[i], "flip": flip_name(flips[i])})).collect::<Vec<_>>()}));
         let mut walker = Walker { rng, own: addrs.clone(), foreign: absent, cfg_dims: None, doctored: true };
         let mut focus = 0usize;
@@ -852,7 +906,7 @@ pub fn record_bus_walks(a: &Args, out: &mut TraceOut, salt: u64, walks: usize, s
                 .map(|i| {
                     let mut c = bus.sign(i).clone();
                     let (r, fine) = apply(&mut c, &m);
-                    json!({"r": r, "obs": if fine { obs(&c) } else { Value::Null }})
+                    json!({"r": r, "obs": if fine { obs(&c) } else { json!({"st": "Panic", "typ": "None", "pages": []}) }})
                 })
                 .collect();
             let before = bus_obs(&bus, n);
@@ -894,7 +948,7 @@ fn run_bus_script(out: &mut TraceOut, desc: &[(u16, PageFlipStyle)], msgs: Vec<M
             .map(|i| {
                 let mut c = bus.sign(i).clone();
                 let (r, fine) = apply(&mut c, &m);
-                json!({"r": r, "obs": if fine { obs(&c) } else { Value::Null }})
+                json!({"r": r, "obs": if fine { obs(&c) } else { json!({"st": "Panic", "typ": "None", "pages": []}) }})
             })
             .collect();
         let before = bus_obs(&bus, n);
@@ -936,6 +990,22 @@ fn record_bus_directed(out: &mut TraceOut) -> Value {
         v.push(Message::QueryState(Address(a)));
         v.push(Message::QueryState(Address(b)));
         steps += run_bus_script(out, &[(3, PageFlipStyle::Manual), (4, PageFlipStyle::Automatic)], v);
+    }
+    // (1b) hundreds of acknowledged receive requests with no chunk count in between, then another sign's transfer
+    {
+        out.balance();
+        let mut v = vec![];
+        for _ in 0..300 {
+            v.push(Message::RequestOperation(Address(3), Operation::ReceiveConfig));
+            v.push(Message::RequestOperation(Address(3), Operation::StartReset));
+            v.push(Message::RequestOperation(Address(3), Operation::FinishReset));
+        }
+        v.extend(cfg(6));
+        v.push(sd(0, &[1, 16, 0, 0, 0, 0, 0, 0, 0, 0, 0, 0, 255, 255, 255, 255]));
+        v.push(Message::DataChunksSent(ChunkCount(1)));
+        v.push(Message::QueryState(Address(6)));
+        v.push(Message::QueryState(Address(3)));
+        steps += run_bus_script(out, &[(3, PageFlipStyle::Manual), (6, PageFlipStyle::Manual)], v);
     }
     // (2) single-bit neighbours: every addressed kind to x ^ (1 << k), with x alone and with both on the bus
     for (k, x) in [(15usize, 0x0012u16), (15, 0xFFFF), (8, 0x0003), (0, 0x0100), (7, 0x1234), (14, 0x4000)] {
@@ -1018,6 +1088,10 @@ fn isolation_violation(addrs: &[u16], m: &Message<'_>, before: &[Value], r: &Val
         for i in 0..n {
             if !receiving(&before[i]) && after[i] != before[i] {
                 return Some(format!("sign {} is not receiving but was changed by an unaddressed data message", i));
+            }
+            // every sign digests an unaddressed data message exactly as it would alone on a bus
+            if after[i] != solo[i].1 {
+                return Some(format!("sign {} ends up different from the same sign alone after an unaddressed data message", i));
             }
         }
     } else if *r != none || after != before {
